@@ -131,6 +131,16 @@ func buildC17Shared(g *model.Gen) (*c17Shared, error) {
 			s.evKeys = append(s.evKeys, k.Pub)
 		}
 	}
+	// a shared decoded Evidence whose protected header spells the algorithm as TEXT
+	// (legal COSE, no use to this library: Verify fails - the same way every time)
+	if env, perr := refcose.Parse(s.tokens[0]); perr == nil {
+		prot := refcbor.Encode(refcbor.MapOf(refcbor.I(1), refcbor.Tstr("ES256")))
+		if d, derr := psatoken.DecodeEvidenceFromCOSE(sign1Bytes(prot, nil, env.Payload, env.Signature)); derr == nil {
+			s.ev = append(s.ev, d)
+			s.evKeys = append(s.evKeys, s.evKeys[0])
+			s.enames = append(s.enames, "evidence:decoded:textual-alg")
+		}
+	}
 	for i := 0; i < 4; i++ {
 		a := g.Valid(2)
 		a.Canon, a.Profile = extprof.ExtGroupName, model.SP(extprof.ExtGroupName)
@@ -256,11 +266,11 @@ func c17Op(s *c17Shared, r *rand.Rand, gid int, clock func() int64) c17Event {
 		case 0, 1:
 			ev.kind = "Evidence.Verify(right-key)"
 			pk := s.evKeys[i]
-			fn = func() string { return fmt.Sprint(e.Verify(pk) == nil) }
+			fn = func() string { return errStr(e.Verify(pk)) }
 		case 2:
 			ev.kind = "Evidence.Verify(wrong-key)"
 			pk := s.evKeys[(i+1)%len(s.evKeys)]
-			fn = func() string { return fmt.Sprint(e.Verify(pk) == nil) }
+			fn = func() string { return errStr(e.Verify(pk)) }
 		case 3:
 			ev.kind = "Evidence.GetInstanceID/GetImplementationID"
 			fn = func() string {
